@@ -13,7 +13,7 @@ the gap for the bot's *own* moves: whatever raw move value the AI hands back —
 
 The one exception is the engine's internal pass (`Type = Pass`): `Position.Move` accepts it, so the loop would
 transmit it (example below); it has no playtak wire form.  No searching player returns it (C04: they return
-generated moves); the theorem states the hypothesis `r.move.type ≠ Pass` explicitly. -/
+generated moves); the hypothesis `r.move.type ≠ Pass` is stated explicitly. -/
 namespace C07
 open Tak Tak.Bot Notation Tak.Proofs
 
